@@ -190,7 +190,11 @@ class Engine:
 
     def feasible(self):
         t0 = time.time()
-        self.solver.set('timeout', 400)
+        self.qf.set('timeout', 300)
+        if self.qf.check() == z3.unsat:
+            self.stats['z3_time'] += time.time() - t0
+            return False
+        self.solver.set('timeout', 150)
         r = self.solver.check()
         self.stats['z3_time'] += time.time() - t0
         self.stats['checks'] += 1
@@ -433,11 +437,11 @@ class Engine:
                 neg = z3.Or(on != n, z3.And(d >= 0, d < n, e1.t != e2.t))
             except Exception:
                 continue
-            self.solver.push()
-            self.solver.add(neg)
-            self.solver.set('timeout', 2000)
-            res = self.solver.check()
-            self.solver.pop()
+            self.qf.push()
+            self.qf.add(neg)
+            self.qf.set('timeout', 500)
+            res = self.qf.check()
+            self.qf.pop()
             if res == z3.unsat:
                 reuse = oA
                 self.stats['mat_ext'] = self.stats.get('mat_ext', 0) + 1
